@@ -31,10 +31,10 @@ std::string intsJson(const std::vector<int>& v) {
 	return a.done();
 }
 
-void segmentCase(const JV& c, size_t k, std::string& out) {
+void segmentCase(const JV& c, size_t k, const char* ver, std::string& out) {
 	size_t nt = (size_t) c["nt"].n;
 	NifFile gen;
-	gen.Create(NiVersion::getFO4());
+	gen.Create(versionByName(ver));
 	if (!buildShape(gen, "S", nt + 2, fan(nt), true)) return;
 	NifFile nif;
 	if (loadFromString(nif, saveToString(gen, false, false)) != 0) return;
@@ -60,7 +60,7 @@ void segmentCase(const JV& c, size_t k, std::string& out) {
 	NifFile::SetShapeSegments(shape, inf, L);
 	std::string t0 = projectShape(nif, shape, ids);
 	JObj ev;
-	ev.add("e", "segments").add("case", (long long) k).raw("info", toJson(c["info"])).raw("L", intsJson(L)).raw("s", s0).raw("t", t0);
+	ev.add("e", "segments").add("case", (long long) k).add("ver", ver).raw("info", toJson(c["info"])).raw("L", intsJson(L)).raw("s", s0).raw("t", t0);
 	bool reloaded = false;
 	{
 		NifFile copy(nif);
@@ -84,7 +84,7 @@ void segmentCase(const JV& c, size_t k, std::string& out) {
 			std::string t1 = projectShape(mid, ms, idm);
 			JObj e2;
 			JObj cj;
-			cj.add("case", (long long) k).add("ver", "FO4").add("after", "SetShapeSegments (middle vertex)");
+			cj.add("case", (long long) k).add("ver", ver).add("after", "SetShapeSegments (middle vertex)");
 			e2.add("e", "delverts").raw("case", cj.done()).raw("I", u16json(idx)).add("allDeleted", all).add("checkParts", false).add("boneLimit", 1000000);
 			e2.raw("s", s1).raw("t", t1).add("reloaded", false);
 			out += e2.done() + "\n";
@@ -99,7 +99,7 @@ void segmentCase(const JV& c, size_t k, std::string& out) {
 		std::string t1 = projectShape(nif, shape, ids2);
 		JObj e2;
 		JObj cj;
-		cj.add("case", (long long) k).add("ver", "FO4").add("after", "SetShapeSegments");
+		cj.add("case", (long long) k).add("ver", ver).add("after", "SetShapeSegments");
 		e2.add("e", "delverts").raw("case", cj.done()).raw("I", u16json(idx)).add("allDeleted", all).add("checkParts", false).add("boneLimit", 1000000);
 		e2.raw("s", s1).raw("t", t1).add("reloaded", false);
 		out += e2.done() + "\n";
@@ -112,7 +112,7 @@ void segmentCase(const JV& c, size_t k, std::string& out) {
 			std::string t2 = projectShape(nif, shape, ids3);
 			JObj e3;
 			JObj cj3;
-			cj3.add("case", (long long) k).add("ver", "FO4").add("after", "SetShapeSegments+DeleteVerts");
+			cj3.add("case", (long long) k).add("ver", ver).add("after", "SetShapeSegments+DeleteVerts");
 			e3.add("e", "delverts").raw("case", cj3.done()).raw("I", u16json(idx2)).add("allDeleted", all2).add("checkParts", false).add("boneLimit", 1000000);
 			e3.raw("s", s2).raw("t", t2);
 			bool rl = false;
@@ -177,7 +177,11 @@ int cmdCases(int argc, char** argv) {
 			for (size_t k = ci * chunk; k < std::min(lines.size(), (ci + 1) * chunk); k++) {
 				JV rec = jparse(lines[k]);
 				const JV& c = rec["c"];
-				if (c["k"].s == "segments") segmentCase(c, k, out);
+				if (c["k"].s == "segments") {
+					// sub-index shapes are what Fallout 4 and Fallout 76 models hold
+					segmentCase(c, k, "FO4", out);
+					if (k % 3 == 0) segmentCase(c, k, "FO76", out);
+				}
 				else if (c["k"].s == "partassign")
 					for (const char* ver : {"FO3", "SK", "SSE"}) partAssignCase(c, k, ver, out);
 			}
@@ -232,6 +236,39 @@ void partitionOps(NifFile& nif, const std::string& shapeName, const std::string&
 			partitionEvent(nif, shape, "DeletePartitions+Update", caseJson, out);
 		}
 	}
+	// deleting the first partition (the remaining ones move down): its triangles go to the second one first
+	{
+		NifFile copy(nif);
+		if (auto cs = byName(copy, shapeName)) {
+			NiVector<BSDismemberSkinInstance::PartitionInfo> pi4;
+			std::vector<int> tp4;
+			if (copy.GetShapePartitions(cs, pi4, tp4) && pi4.size() >= 2 && std::find(tp4.begin(), tp4.end(), -1) == tp4.end()) {
+				for (auto& l : tp4)
+					if (l == 0) l = 1;
+				copy.SetShapePartitions(cs, pi4, tp4);
+				std::vector<uint32_t> del = {0u};
+				copy.DeletePartitions(cs, del);
+				copy.UpdateSkinPartitions(cs);
+				partitionEvent(copy, cs, "DeleteFirstPartition+Update", caseJson, out);
+			}
+		}
+	}
+	// an emptied first partition removed by RemoveEmptyPartitions
+	{
+		NifFile copy(nif);
+		if (auto cs = byName(copy, shapeName)) {
+			NiVector<BSDismemberSkinInstance::PartitionInfo> pi5;
+			std::vector<int> tp5;
+			if (copy.GetShapePartitions(cs, pi5, tp5) && pi5.size() >= 2 && std::find(tp5.begin(), tp5.end(), -1) == tp5.end()) {
+				for (auto& l : tp5)
+					if (l == 0) l = int(pi5.size()) - 1;
+				copy.SetShapePartitions(cs, pi5, tp5);
+				copy.RemoveEmptyPartitions(cs);
+				copy.UpdateSkinPartitions(cs);
+				partitionEvent(copy, cs, "RemoveEmptyFirstPartition+Update", caseJson, out);
+			}
+		}
+	}
 	// ids beyond the given partition list and no unassigned triangle: every id up to the highest one becomes a partition
 	{
 		NifFile copy(nif);
@@ -247,8 +284,8 @@ void partitionOps(NifFile& nif, const std::string& shapeName, const std::string&
 			}
 		}
 	}
-	// save + reload
-	{
+	// save + reload (not for a legacy shape under a Skyrim SE header: that file mixes two partition layouts)
+	if (!(nif.GetHeader().GetVersion().IsSSE() && !dynamic_cast<BSTriShape*>(shape))) {
 		NifFile copy(nif);
 		NifFile re;
 		if (loadFromString(re, saveToString(copy, true, true)) == 0)
@@ -294,6 +331,7 @@ int cmdC10(int argc, char** argv) {
 	// many influences per vertex (the builder keeps the four strongest): 5..9 per vertex, around and above the bone limits
 	for (auto v : vers)
 		for (size_t inf = 5; inf <= 9; inf++) cases.push_back({"", v, 40, 1000 + inf});
+	for (size_t nb : {79, 80, 81, 100}) cases.push_back({"", "SSE-legacy", nb, 0});
 	for (size_t i = 0; i < nrandom; i++) cases.push_back({"", vers[i % 4], size_t(2 + (i * 7) % 40), size_t(20 + (i * 13) % 90)});
 	{ Out trunc(outPath); }
 	size_t crashes = runForkedCases(
@@ -321,9 +359,12 @@ int cmdC10(int argc, char** argv) {
 			std::vector<Triangle> tris;
 			for (size_t i = 0; i + 2 < nv; i++) tris.emplace_back(uint16_t(i), uint16_t(i + 1), uint16_t(i + 2));
 			NifFile nif;
-			nif.Create(versionByName(cases[k].ver));
+			bool legacyInSSE = cases[k].ver == "SSE-legacy";
+			nif.Create(versionByName(legacyInSSE ? "SK" : cases[k].ver));
 			NiShape* shape = buildShape(nif, "S", nv, tris, true);
 			if (!shape) return;
+			// a legacy NiTriShape in a file whose header says Skyrim SE (the format allows it): the bone limit is the file's
+			if (legacyInSSE) nif.GetHeader().SetVersion(NiVersion::getSSE());
 			bool random = cases[k].nv != 0 && !influences;
 			skinShape(nif, shape, nb, [&](uint16_t v) {
 				std::vector<std::pair<int, float>> w;
